@@ -6,7 +6,7 @@
    relabel as a whole, relabelDisjointFrom, Betti invariance. *)
 From Coq Require Import String ZArith Bool Arith List.
 From SV Require Import Names NamesFacts ListFacts Rep Fresh Complex Atomic RepInv Reach RelabelProofs Homology RelabelAll RelabelPhi.
-From SV Require ClosedReach AttrInv BulkRenamed Shapes.
+From SV Require ClosedReach AttrInv BulkRenamed Shapes DisjointRen.
 Import ListNotations.
 
 Theorem C15_one_rename_carries_structure_partial :
@@ -115,3 +115,15 @@ Theorem C15_bulk_add_under_a_renaming :
   ns' = ns ++ map phi (map fst src).
 Proof. exact BulkRenamed.bulk_add_renamed. Qed.
 Print Assumptions C15_bulk_add_under_a_renaming.
+
+(* relabelDisjointFrom(c): a completed call leaves no name shared with c, renames only simplices whose names c also
+   uses (to names c does not use), and keeps every other simplex under its name.  (On the pinned tree this was false: the
+   new name was only checked against the receiver, so a name of c that looks like a decorated name -- 'a->0d1' -- stayed
+   shared; found while proving this theorem, fixed in /repo, DESIGN 6.) *)
+Theorem C15_relabelDisjointFrom_leaves_no_shared_name :
+  forall r c r' st mapping, pinv r -> pinv c -> relabelDisjointFrom r c = (r', st, Ok mapping) ->
+  (forall s, containsSimplex r' s = true -> containsSimplex c s = false) /\
+  (forall s t, In (s, t) mapping -> containsSimplex r s = true /\ containsSimplex c s = true /\ containsSimplex c t = false) /\
+  (forall s, containsSimplex r s = true -> containsSimplex c s = false -> containsSimplex r' s = true).
+Proof. exact DisjointRen.relabelDisjointFrom_spec. Qed.
+Print Assumptions C15_relabelDisjointFrom_leaves_no_shared_name.
